@@ -14,7 +14,8 @@ TB = ("Trusted: Lean 4.33 kernel (axioms propext, Classical.choice, Quot.sound o
       "differentially against the real engine (DESIGN.md sections 3 and 8).")
 
 # property -> (claimed?, level category, text, technique, note)
-TECH = "Lean 4 theorems over a hand-written executable model + differential correspondence (Go vs model vs spec) + regenerated facts"
+TECH = ("Lean 4 theorems over a hand-written executable model + differential correspondence (Go vs model vs spec) + regenerated facts; "
+        "clauses about timing, files, sockets, scale or histories are driven by Go-only assert families whose expected answers transcribe the theorems")
 
 CLAIMS = {
     "C01": (True, "proof",
@@ -41,7 +42,7 @@ CLAIMS = {
             "rule TEXT through the modelled parser), merge_iff_common / bsearch_iff_mem / domain_test_iff / wildcard_test_iff / reqtype_iff, c04_parser_sorts, and the "
             "order-independence theorems c04_perm*, c04_unreachable_options. Tie: the modelled parser reproduces Go's parsed rule field by field (grammar, mutated and "
             "real-list texts), Match vs model vs spec on requests aimed at the rule's own values, text-level reference, permutation asserts.",
-            TECH, TB + " Domain: one content-type bit, sorted request tags, hostnames not starting with '.'; the pattern matcher is a parameter (proved for masks in C03)."),
+            TECH, TB + " Domain: one content-type bit, sorted request tags, hostnames not starting with '.'; in c04 the pattern matcher is a parameter, instantiated by the proved mask/regex model in Props/C04Full."),
     "C05": (True, "proof",
             "c05_re / c05_runs / c05_regex_shortcut (every literal the parsed expression requires is a factor of every accepted, lower-cased string -- for an ARBITRARY "
             "candidate generator), c05_mask_* (findShortcut returns a maximal run free of * ^ |, no slice panic), c05 (Match is unchanged without the shortcut test). "
@@ -57,7 +58,7 @@ CLAIMS = {
             "higher_iff (IsHigherPriority = lexicographic comparison of (class, redirect, specific, modifier count)), hence c07_irrefl, c07_asymm, c07_trans, "
             "c07_incomp_trans for EVERY pair/triple of rule records; c07_add_* (adding a counted feature ranks strictly higher); c07_selected_maximal, c07_perm. Fact "
             "obligation: IsHigherPriority reads the same fields from both operands (go/ast). Tie: the whole Go priority matrix over a 2304-rule feature pool (thorough) vs "
-            "model, Go-side law asserts, and the real selection loops.", TECH, TB + " 'Adding a modifier' is stated on rule records (document-only options replace content types at text level)."),
+            "model, Go-side law asserts, and the real selection loops.", TECH, TB + " 'Adding a modifier' is stated on rule records in Props/C07 and on rule TEXTS, with its exceptions (document-only options replace the content types), in Props/C07Text."),
     "C08": (True, "proof",
             "removeBad_eq (filter formulation for any number of badfilter rules), negates_iff (all matching-relevant fields), c08_twin / c08_twins (adding k twin pairs at "
             "any positions changes nothing), c08_other, c08_verdict_*, c08_rewrites_* (DNSRewrites applies $badfilter: D14). Fact obligation: negatesBadfilter reads every "
@@ -74,7 +75,7 @@ CLAIMS = {
             "pack_unpack / pack_inj (all int32 pairs, bit extensionality), trimSpace_* , scan_retrieve_string, retrieveFile_eq_string (EVERY chunking of the block reads), "
             "c11 / c11_history (every scanned rule is retrieved by its index from any reachable cache state), c11_ref (scan = parse each line), c11_backing. Tie: real "
             "RuleStorage over String and File lists (real temp files) incl. 10 KiB lines, extreme ids, garbage indices; TrimSpace vs model.",
-            TECH, TB + " rules.NewRule is a parameter assumed to trim first (proved for the parser model in C12)."),
+            TECH, TB + " In c11 rules.NewRule is a parameter assumed to trim first; c11_real instantiates it with the parser model. The storage model is a pure function of the contents: that a scanner and RetrieveRule do not disturb one another is checked by the family c11.interleave (it found defect D17, repaired)."),
     "C12": (True, "proof",
             "c12_total_* (no modelled slice/index ever fails, all byte strings), c12_outcomes / c12_text (a line yields nothing, an error, or a rule with the trimmed text "
             "and the given id), c12_inert_* (blank, comment and rejected lines and CRLF do not change the accepted sequence). Tie: rules.NewRule vs model on arbitrary "
@@ -142,6 +143,13 @@ EXTRA = {
     "C18": "Composition (Props/C18Full): NewRule's dispatch for hosts lines with the modelled IsDomainName (no Go table).",
 }
 
+NOTE_EXTRA = {pid: " Model = Go is established for ASCII URLs and list contents only (byte-wise lower-casing in the model, Unicode folding in Go: DESIGN 8.5); other inputs are answered ood by the driver and only checked for crashes." for pid in ("C01", "C02", "C06", "C15", "C16", "C17")}
+NOTE_EXTRA["C08"] = (" 'Same modifier values' is read as Go compares them: $domain/$denyallow/$dnstype lists as sequences, $ctag/$client up to order "
+                     "(DESIGN 8.5); both halves are theorems (Props/C08Order) and pinned by l.c08order.")
+NOTE_EXTRA["C09"] = (" 'Empty value' is read on the parsed record: the keyword NOERROR and record types without a value parser (NS, SOA, ...) "
+                     "parse to a value-less record (DESIGN 8.5).")
+NOTE_EXTRA["C20"] = " Plain and gzip bodies, as in the property; other Content-Encoding values are outside it (DESIGN 8.5)."
+
 NA_REASON = "check under construction in this round (model/spec/theorems and correspondence ops being built; see DESIGN.md section 4); not claimed yet"
 
 
@@ -160,7 +168,7 @@ def main():
                 "replay_cmd_template": "bin/vcheck --replay {path}",
                 "engine": "lean-model+go-harness",
                 "level_claimed": {"category": c[1], "text": c[2] + (" " + EXTRA[pid] if pid in EXTRA else ""), "design_ref": "DESIGN.md section 4, " + pid},
-                "level_note": c[4],
+                "level_note": c[4] + NOTE_EXTRA.get(pid, ""),
                 "technique": c[3],
             })
         else:
